@@ -1,6 +1,23 @@
-(* C11 — crashes and I/O errors in lifecycle operations never lose data or forge a job. *)
+(* C11 — crashes and I/O errors in lifecycle operations never lose data or forge a job.
+   This file only states theorems; proofs live in SV.Proc / SV.C11Proofs.
+
+   Model: SV.Crash (the lifecycle operations call by call), under the crash / fault semantics of SV.Proc.
+   [WInv frepr wss f0]: f0 is a well-formed tree, the workspaces [wss] are directories and every listed job
+   directory validates.  [CInv frepr op wss f0 f] (executable: Crash.cinv_b on the model's own recovery
+   observation): (1) every entry outside the affected job directories is unchanged, (2) unless the operation
+   is a removal every data file of the job exists under exactly one affected directory, (3) every listed
+   directory validates or is reported by check(), (4) a directory validates only with a state point from the
+   job's history.
+
+   Status: crash_safe_init / _rekey / _move FULL (all crash points incl. torn writes, both write protocols);
+   fault_safe_move FULL and for EVERY fault plan (single, double, ... faults);
+   fault_clone REFUTED (confirmed defect, known finding 1);
+   crash_safe_clone / _remove / _clear and fault_safe_init / _rekey are NOT proved (unbounded recursion over
+   the job's tree resp. the larger case analysis): for them only the correspondence speaks
+   (every crash prefix and every single fault of the generated scenarios, oracle evaluated in Coq). *)
 From SV Require Import Base Json MD5 Canon FS Proc Crash CorrC11 C11Proofs.
 
+(* the prefix induction principle of the crash semantics *)
 Theorem C11_prefix_induction : forall A (I : prog A -> fs -> Prop) (Q : fs -> Prop),
   (forall p f, I p f -> Q f) ->
   (forall c k f f' r, I (Do c k) f -> exec_res f c = (f', r) -> I (k r) f') ->
@@ -9,3 +26,93 @@ Theorem C11_prefix_induction : forall A (I : prog A -> fs -> Prop) (Q : fs -> Pr
   forall p f g, I p f -> crash_states p f g -> Q g.
 Proof. exact crashed_ind_inv. Qed.
 Print Assumptions C11_prefix_induction.
+
+(* Job.init: for every crash point (incl. every torn offset of the state point write) of either write
+   protocol, from a valid workspace in which the job exists or not *)
+Theorem C11_crash_safe_init : forall frepr wss f0 w1 w2 wr sp force atomic g,
+  WInv frepr wss f0 -> In (w1 :: w2 :: wr) wss ->
+  crash_states (op_prog frepr atomic (KInit (w1 :: w2 :: wr) sp force)) f0 g ->
+  CInv frepr (KInit (w1 :: w2 :: wr) sp force) wss f0 g.
+Proof. exact crash_safe_init_thm. Qed.
+Print Assumptions C11_crash_safe_init.
+
+(* the re-key protocol (sp[k] = v, update_statepoint) of an existing valid job: the intermediate states
+   "state point parked as signac_statepoint.json~", "directory renamed, only the backup inside", "backup
+   removed", "state point being written (torn)", and the rolled-back states on an occupied destination.
+   Side condition on the pre-state: no stale temp file of an interrupted earlier write in the job directory. *)
+Theorem C11_crash_safe_rekey : forall frepr wss f0 w1 w2 wr old nsp atomic g,
+  WInv frepr wss f0 -> In (w1 :: w2 :: wr) wss -> In old (job_dirs f0 (w1 :: w2 :: wr)) ->
+  old <> calc_id frepr nsp ->
+  get f0 (((w1 :: w2 :: wr) ++ [old]) ++ [TMPPFX ++ [] ++ SPF]) = None ->
+  crash_states (op_prog frepr atomic (KRekey (w1 :: w2 :: wr) old nsp)) f0 g ->
+  CInv frepr (KRekey (w1 :: w2 :: wr) old nsp) wss f0 g.
+Proof. exact crash_safe_rekey_thm. Qed.
+Print Assumptions C11_crash_safe_rekey.
+
+(* a re-key that does not change the id performs no mutation at all *)
+Theorem C11_crash_safe_rekey_same_id : forall frepr wss f0 ws old nsp atomic g,
+  WInv frepr wss f0 -> In ws wss -> In old (job_dirs f0 ws) -> calc_id frepr nsp = old ->
+  crash_states (op_prog frepr atomic (KRekey ws old nsp)) f0 g -> g = f0.
+Proof. exact crash_safe_rekey_same. Qed.
+Print Assumptions C11_crash_safe_rekey_same_id.
+
+(* Job.move into a project whose workspace exists *)
+Theorem C11_crash_safe_move : forall frepr wss f0 ws dws i atomic g,
+  WInv frepr wss f0 -> In ws wss -> In dws wss -> In i (job_dirs f0 ws) ->
+  crash_states (op_prog frepr atomic (KMove ws i dws)) f0 g ->
+  CInv frepr (KMove ws i dws) wss f0 g.
+Proof. exact crash_safe_move_thm. Qed.
+Print Assumptions C11_crash_safe_move.
+
+(* Job.move under EVERY fault plan (any number of failing calls, any errnos): CInv holds, a normal return
+   means the move is complete, an exception means the tree is exactly the pre-state *)
+Theorem C11_fault_safe_move : forall frepr wss f0 ws dws i atomic plan,
+  WInv frepr wss f0 -> In ws wss -> In dws wss -> In i (job_dirs f0 ws) -> length dws = 2%nat ->
+  let '(g, out) := run_fault plan 0 (op_prog frepr atomic (KMove ws i dws)) f0 in
+  CInv frepr (KMove ws i dws) wss f0 g /\
+  match out with
+  | inl _ => post_ok frepr (KMove ws i dws) f0 g = true
+  | inr _ => g = f0
+  end.
+Proof. exact fault_safe_move_thm. Qed.
+Print Assumptions C11_fault_safe_move.
+
+(* Project.clone: REFUTED for faults — a write error on a data file raises, yet leaves a destination that
+   validates, that check() does not report and whose data is not intact (known finding 1; the harness
+   replays this fault on the real code) *)
+Theorem C11_fault_safe_clone_refuted :
+  match find_occ cw_sig 0 (map fst (trace (op_prog cw_repr true cw_op) cw_f0)) 0 with
+  | None => False
+  | Some k =>
+      let '(g, out) := run_fault (single k EIO) 0 (op_prog cw_repr true cw_op) cw_f0 in
+      (exists e, out = inr e)
+      /\ validates cw_repr g cw_b cw_id = true
+      /\ check_report cw_repr g cw_b = Some []
+      /\ holds_file g (cw_b ++ [cw_id]) [cw_data] cw_bytes = false
+      /\ exists_ g (cw_b ++ [cw_id]) = true /\ exists_ cw_f0 (cw_b ++ [cw_id]) = false
+  end.
+Proof. exact clone_fault_witness. Qed.
+Print Assumptions C11_fault_safe_clone_refuted.
+
+(* licence for the correspondence step: when a crash_safe theorem covers the case's operation and the
+   implementation's observations agree with the model (no mismatch), every crash state the implementation
+   was seen in is observationally equal to a model crash state that satisfies CInv *)
+Theorem C11_model_holds : forall c wss,
+  (forall g, crash_states (prog_of c) (k_pre c) g -> CInv (frepr_of c) (k_op c) wss (k_pre c) g) ->
+  mismatch_C11 c = false ->
+  forall out sts, k_probe c = PCrash out sts ->
+  Forall2 (fun m ob => fobs_match (frepr_of c) (k_wss c) m ob = true /\ CInv (frepr_of c) (k_op c) wss (k_pre c) m)
+          (model_crash_states c) sts.
+Proof. exact model_holds_crash. Qed.
+Print Assumptions C11_model_holds.
+
+(* non-vacuity: the witness workspace of the refutation is a valid workspace (so the crash_safe theorems
+   apply to it), with a listed job *)
+Example C11_example :
+  NoDup (map fst cw_f0) /\ get cw_f0 cw_a = Some Dir /\ job_dirs cw_f0 cw_a = [cw_id] /\
+  validates cw_repr cw_f0 cw_a cw_id = true /\
+  cinv_b cw_repr cw_op cw_f0 cw_f0 (observe cw_repr cw_f0 [cw_a; cw_b]) = true.
+Proof.
+  split; [|vm_compute; repeat split; reflexivity].
+  repeat constructor; simpl; intuition discriminate.
+Qed.
